@@ -364,12 +364,12 @@ def emu_cases(cases, arch):
         out.append(c)
     return out
 
-def coqchk(pid, timeout=2400):
+def coqchk(pid, timeout=2400, extra=()):
     """independent re-check of the compiled property file and everything it depends on; returns
     dict(ok, axioms, type_in_type, wall, tail)"""
     t0 = time.time()
     try:
-        p = subprocess.run(["coqchk", "-silent", "-o", "-Q", COQ, "Memchr", f"Memchr.Props.{pid}"],
+        p = subprocess.run(["coqchk", "-silent", "-o", "-Q", COQ, "Memchr", f"Memchr.Props.{pid}"] + list(extra),
                            stdout=subprocess.PIPE, stderr=subprocess.STDOUT, text=True, timeout=timeout)
         out, rc = p.stdout, p.returncode
     except subprocess.TimeoutExpired as ex:
